@@ -348,14 +348,16 @@ func (i InfixExpression) PrettyPrint(out *PrintState) *PrintState {
 		out.Print("(")
 	}
 	i.Left.PrettyPrint(out)
-	if out.Compact {
+	switch {
+	case i.Right == nil:
+		// open ended slice a[1:] - printed as is so it parses back to the same thing.
 		out.Print(i.Literal())
-	} else {
+	case out.Compact:
+		out.Print(i.Literal())
+	default:
 		out.Print(" ", i.Literal(), " ")
 	}
-	if i.Right == nil {
-		out.Print("nil")
-	} else {
+	if i.Right != nil {
 		// Binary operators are left associative: a right operand of the same precedence needs its parentheses
 		// (a-(b-c) is not a-b-c). Historical exception: a+(b+c) is printed a+b+c.
 		rightParen := false
